@@ -204,30 +204,30 @@ def replay_copula_margins(sc):
 
     ms = [HEM.HEMModel(HEM.HEMParameters(sigma=0.1, p=0.4, eta1=20.0, eta2=25.0, intensity=3.0)), CGMY.CGMYModel(CGMY.CGMYParameters(c=0.1, g=5.0, m=6.0, y=1.3))]
     lcm = LCM.LevyCopulaModel(models=ms, copula=ClaytonCopula(theta=0.7, eta=0.3))
-    h = 0.2
-    axis = np.array([-2.0, -1.0, -h, 0.0, h, 1.0, 2.0])
-    grid = GS.CTMCGrid(h=h, origin_coordinate=3, axes=[axis.copy(), axis.copy()])
-    proc = MCLC.MarkovChainLevyCopula(lcm, grid, SamplingMethod.INVERSION)
-    proc.initialisation(StubProduct())
-    drift = np.asarray(proc.process_drift(), dtype=float)
     out = []
-    for i, m in enumerate(ms):
-        nu = m.levy_triplet.nu
-        q = SF.create_q_vector(proc.model.models[i].levy_triplet.nu, GS.CTMCGrid(h=h, origin_coordinate=3, axes=[axis.copy()]))
-        got = drift[i, 0] + float(np.dot(axis, q))
-        fv = nu.jump_of_finite_variation()
-        l, r = axis[0], axis[-1]
-        rep = m.levy_triplet.representation.name
-        a = float(m.levy_triplet.a)
-        if rep == "CENTER":
-            want = a
-        elif rep == "ZERO":
-            want = a + quad_mass(nu, l, -1e-12, 1) + quad_mass(nu, 1e-12, r, 1)
-        else:
-            want = None
-        if want is not None and abs(got - want) > 1e-6 * max(1.0, abs(want)):
-            out.append(f"margin {i} ({type(m).__name__}, declared {rep}, finite variation: {fv}): drift + sum x q = {got!r}, mean of the truncated margin {want!r}")
-    return bool(out), "HEM x CGMY(y=1.3), Clayton, grid [-2, 2] with h = 0.2: " + "; ".join(out)
+    for h, axis in ((0.2, np.array([-2.0, -1.0, -0.2, 0.0, 0.2, 1.0, 2.0])), (0.1, np.array([-0.5, -0.3, -0.1, 0.0, 0.1, 0.25, 0.4]))):
+      # second grid: narrow, so that the jumps it cuts away carry a visible part of the mean of the untruncated margins
+      grid = GS.CTMCGrid(h=h, origin_coordinate=3, axes=[axis.copy(), axis.copy()])
+      proc = MCLC.MarkovChainLevyCopula(lcm, grid, SamplingMethod.INVERSION)
+      proc.initialisation(StubProduct())
+      drift = np.asarray(proc.process_drift(), dtype=float)
+      for i, m in enumerate(ms):
+          nu = m.levy_triplet.nu
+          q = SF.create_q_vector(proc.model.models[i].levy_triplet.nu, GS.CTMCGrid(h=h, origin_coordinate=3, axes=[axis.copy()]))
+          got = drift[i, 0] + float(np.dot(axis, q))
+          fv = nu.jump_of_finite_variation()
+          l, r = axis[0], axis[-1]
+          rep = m.levy_triplet.representation.name
+          a = float(m.levy_triplet.a)
+          if rep == "CENTER":
+              want = a
+          elif rep == "ZERO":
+              want = a + quad_mass(nu, l, -1e-12, 1) + quad_mass(nu, 1e-12, r, 1)
+          else:
+              want = None
+          if want is not None and abs(got - want) > 1e-6 * max(1.0, abs(want)):
+              out.append(f"grid [{axis[0]}, {axis[-1]}], h = {h}: margin {i} ({type(m).__name__}, declared {rep}, finite variation: {fv}): drift + sum x q = {got!r}, mean of the truncated margin {want!r}")
+    return bool(out), "HEM x CGMY(y=1.3), Clayton: " + "; ".join(out)
 
 
 def h_copula_margins(ctx, npts, rep, fv):
